@@ -241,7 +241,11 @@ class SubQueryLineageHolder(ColumnLineageMixin):
         for src_col in src_table_columns:
             new_column = Column._from_raw_name(src_col.raw_name)
             new_column.parent = tgt_table
-            if new_column in target_columns or src_col.raw_name == "*":
+            if src_col.raw_name == "*" or (
+                new_column in target_columns and self.get_source_columns(new_column)
+            ):
+                # a target column that already has a source keeps it; one that is only listed
+                # (known from metadata) still has to be wired
                 continue
             self.graph.add_edge(tgt_table, new_column, type=EdgeType.HAS_COLUMN)
             self.graph.add_edge(src_col.parent, src_col, type=EdgeType.HAS_COLUMN)
